@@ -27,7 +27,9 @@ WORDS = ['the', 'quick', 'brown', 'fox', 'jumps', 'over', 'lazy', 'dog', 'Hello'
          # spaces that are not ASCII blanks inside a word: no-break, narrow no-break, ideographic, em space
          'n\u00a0b', '10\u202f000', '\u5168\u3000\u89d2', 'em\u2003sp',
          # format characters inside a word: zero width no-break space (the BOM code point), soft hyphen, ZWJ
-         'zero\ufeffwidth', 'soft\u00adhyphen', 'zw\u200dj']
+         'zero\ufeffwidth', 'soft\u00adhyphen', 'zw\u200dj',
+         # bidirectional marks (WebVTT spells them &lrm; / &rlm;)
+         'l\u200erm', 'r\u200flm']
 
 # format metacharacters and markup-/entity-looking strings (property C03's adversarial emphasis)
 META = ['&', '<', '>', '"', "'", '-->', '->', '--', '&amp;', '&lt;', '&gt;', '&#65;', '&#x41;',
